@@ -2,5 +2,11 @@ from ._expr_common import run_expr_prop
 
 
 def run(tier, seed, verdict):
-    cov, assume = run_expr_prop("C01", tier, seed, verdict, variants=("asan20d",))
+    # exactly-once is also demanded on the exception paths: single-fault enumeration (each throwable point of the first
+    # scenarios of every program made to throw: callables, value copies/moves, leaf connects, allocations), judged by the
+    # protocol monitor M1 (double completion, completion before start, lost completion)
+    cov, assume = run_expr_prop("C01", tier, seed, verdict, variants=("asan20d",), faults=True,
+                                fault_scenarios=4 if tier == "quick" else 12,
+                                extra_rule="fault enumeration: for the first 4 (thorough: 12) scenarios of every program each "
+                                "throwable point is made to throw in its own run (protocol rules only).")
     return cov, assume, "exploration"
